@@ -100,6 +100,9 @@ def shaped_inputs(tier):
     shaped += [K.ladder(L, w, tw) for L in (3, 5, 8) for w in (2, 3) for tw in (True, False)]
     shaped += [K.caterpillar(n, d) for n in (6, 10, 16) for d in ("out", "in")] + [K.binary_tree(k, d) for k in (3, 4) for d in ("out", "in")]
     shaped += [K.grid(w, h) for w in (2, 3, 4) for h in (2, 3, 4)] + [K.bipartite(a, b) for a in (2, 3, 4) for b in (2, 3, 4)]
+    # edges spanning 16-40 layers (routes with as many bends; helper-node chains longer than any small constant)
+    shaped += [K.chord_chain(L, [(0, L - 1)]) for L in (17, 18, 25, 33, 40)] + [K.chord_chain(L, [(L - 1, 0)]) for L in (17, 20, 34)]
+    shaped += [K.chord_chain(30, [(0, 29), (3, 22), (5, 9)]), K.chord_chain(22, [(0, 21), (0, 21), (21, 1)])]
     # paths of different lengths between two nodes (+ pendant leaves), many edge orders: stretched edges between balanced nodes
     prng = random.Random(4711)
     for _ in range(250 if tier == "quick" else 2500):
@@ -182,6 +185,34 @@ def c04_cases(tier, rng):
     for (n, e), cb in rotate(rnd, combos, 1, rng):
         yield apply(n, e, cb)
     yield from nspos_small_budget(tier, rng, 3000 if tier == "quick" else 30000, {})
+    # the network-simplex positioner's balancing step on trees in two or three layers (zigzag paths, small bipartite trees) with
+    # one or two nodes much wider than the others: several zero-cut tree edges, each with room to move, whose shifts interact
+    # through the separation edges (about 1 in 10^5 random graphs has this; here it is every input)
+    for i in range(4000 if tier == "quick" else 40000):
+        nt, nb = rng.randint(2, 4), rng.randint(2, 4)
+        top, bot = list(range(nt)), list(range(nt, nt + nb))
+        es, inn = [], [rng.choice(top)]
+        rest = [v for v in top + bot if v != inn[0]]
+        rng.shuffle(rest)
+        while rest:
+            v = rest.pop()
+            cand = [u for u in inn if (u < nt) != (v < nt)]
+            if not cand:
+                rest.insert(0, v)
+                continue
+            u = rng.choice(cand)
+            es.append((u, v) if u < nt else (v, u))
+            inn.append(v)
+        if rng.random() < 0.3:
+            es.append((rng.choice(top), rng.choice(bot)))          # one extra edge: not a tree any more
+        if rng.random() < 0.3:
+            leaf = nt + nb
+            es.append((rng.choice(bot), leaf))                     # a third layer
+        rng.shuffle(es)
+        n, e = K.canon(es)
+        c = apply(n, e, dict(p1=K.P1S[i % 3], p2=K.P2S[i % 2], p4="nspos", p5=["straight", "poly"][i % 2], ns=[2, 0, 12, 1][i % 4], ls=4))
+        c["smap"] = [[1, rng.choice([2, 2, 2, 4, 16, 3]), 6] for _ in range(n)]
+        yield c
     # fractional NodeSpacing (0.25, 0.5, 1.75, 2.5) with odd widths, for the positioners that compute in floating point
     combos_f = grid(p1=K.P1S, p2=K.P2S, p4=["sink", "valign", "pack"], p5=["straight"], size=["all", "fixed"], pat=["odd", "het"], ns=[1, 2, 7, 10], nsd=[4])
     for (n, e), cb in rotate(random_inputs(rng, 1500 if tier == "quick" else 15000, 4, 16), combos_f, 1, rng):
@@ -341,6 +372,10 @@ def c10_cases(tier, rng):
 NAME_STYLES = {
     "plain": None,
     "helper": lambda n: (["V1", "NE0", "V2", "NE1", "NE2", "V3", "NE3", "NE4", "V4", "NE5"] + ["V%d" % i for i in range(5, 60)])[:n],
+    # identifiers whose concatenations collide ("a" + "ab" = "aa" + "b", "1" + "12" = "11" + "2"): a key built by joining two IDs
+    # identifies two different node pairs
+    "concat": lambda n: (["a", "b", "ab", "ba", "aa", "bb", "aab", "aba", "abb", "baa", "bab", "bba", "aaa", "bbb"] + ["a" * (i // 2) + "b" * (i - i // 2) for i in range(8, 80)])[:n],
+    "digits": lambda n: ["%d" % i for i in range(1, n + 1)] if n >= 11 else (["1", "11", "12", "2", "21", "111", "112", "121", "211", "22"])[:n],
     "weird": lambda n: (["", "x" * 300, "\u30ce\u30fc\u30c9", "a b", "\"q\"", "tab\t", "\u0000z", "\U0001F600"] + ["w%d" % i for i in range(60)])[:n],
 }
 
@@ -348,7 +383,7 @@ NAME_STYLES = {
 def c01_cases(tier, rng):
     axes = dict(p1=["greedy", "greedyrand", "dfs", "dfsrand"], p2=K.P2S, p4=K.P4_ALL, p5=["poly", "straight", "ortho", "noop", "splines"],
                 size=["none", "fixed", "all", "some", "nomap", "fixed+some", "fixed+all", "fixed+zero"], pat=["het", "het2", "wide1", "odd"], ns=[0, 1, 10], ls=[0, 1, 10],
-                thor=[0, 1, -1], virt=[0, 1], names=["plain", "helper", "weird"])
+                thor=[0, 1, -1], virt=[0, 1], names=["plain", "helper", "weird", "concat", "digits"])
 
     def combo():
         cb = {k: rng.choice(v) for k, v in axes.items()}
@@ -419,10 +454,19 @@ def c12_cases(tier, rng):
             for p4 in (["valign", "sink"] if tier == "quick" else K.P4_SIZE_AWARE):
                 c = apply(n, e, dict(p1="dfs", p2=p2, p4=p4, p5="poly", size="fixed", ns=2, mon=1))
                 yield c
+    # long chains of blocks (more than any small round or recursion limit a positioner might have): spines with a source per level,
+    # 12-60 levels, one node much wider than the others (equal widths would hide an inversion: the nodes only tie in x)
+    for lv in ((12, 35, 36, 40) if tier == "quick" else (12, 24, 33, 34, 35, 36, 40, 48, 60)):
+        n, e = K.rail_caterpillar(lv)
+        for wide_at in (18, 9, 2 * lv - 1, lv, 3):
+            for p2, p4 in (("ns", "sink"), ("lp", "sink"), ("ns", "valign")) if tier == "quick" else [(a, b) for a in K.P2S for b in ("sink", "valign", "pack")]:
+                c = apply(n, e, dict(p1="dfs", p2=p2, p4=p4, p5="poly", ns=2, mon=1))
+                c["smap"] = [[1, 18 if i == wide_at else 2, 4] for i in range(n)]
+                yield c
     # wide layers: two (or three) layers of a few dozen nodes each, sparsely joined - rings u_i -> v_i, u_i -> v_(i+1), and random
     # sparse bipartite graphs - so that the bilayer counter works on layer pairs of 24x24 .. 70x60 nodes
     wide = []
-    for k in ((24, 33, 48) if tier == "quick" else (24, 31, 32, 33, 40, 48, 64, 70)):
+    for k in ((24, 33, 48, 66) if tier == "quick" else (24, 31, 32, 33, 40, 48, 64, 66, 70)):
         wide.append(K.canon([(i, k + i) for i in range(k)] + [(i, k + (i + 1) % k) for i in range(k)]))
         wide.append(K.canon([(i, k + i) for i in range(k)] + [(i, k + (i * 7 + 3) % k) for i in range(k)] +
                             [(k + i, 2 * k + (i * 5 + 1) % k) for i in range(k)]))
@@ -469,6 +513,21 @@ def c13_cases(tier, rng):
                 brooms.append(K.broom(rng, prof, d))
     for (n, e), cb in rotate(brooms, combos_b, 2, rng):
         yield apply(n, e, cb)
+    # wide trees: two adjacent layers of more than 64 nodes each (root -> a_0..a_(k-1), a_i -> b_i, b_0 -> c): positions
+    # beyond any machine-word bit set or small table; edge lists in natural order, with the last two entries swapped
+    # (the bottom-up initial order then starts with a crossing at the far end), and shuffled
+    for k in ((65, 70) if tier == "quick" else (63, 64, 65, 66, 70, 100, 129)):
+        base = [(0, 1 + i) for i in range(k)] + [(1 + i, 1 + k + i) for i in range(k)] + [(1 + k, 1 + 2 * k)]
+        sw = list(base)
+        sw[2 * k - 1], sw[2 * k - 2] = sw[2 * k - 2], sw[2 * k - 1]
+        sh = list(base)
+        rng.shuffle(sh)
+        for es in (base, sw, sh):
+            for d in ("out", "in") if tier != "quick" else ("out",):
+                ee = es if d == "out" else [(v, u) for u, v in es]
+                n, e = K.canon(ee)
+                for p4 in ("sink", "valign"):
+                    yield apply(n, e, dict(p1="dfs", p2="ns", p4=p4, p5="poly", size="fixed", ns=2))
 
 
 RULES = {
